@@ -189,6 +189,14 @@ impl Net {
         }
     }
 
+    /// a bare receive stream (for driving FrameStream directly)
+    pub fn raw_recv(&self, sid: u64) -> SimRecv {
+        let mut n = self.lock();
+        n.streams.entry(sid).or_default().has_rx = true;
+        drop(n);
+        SimRecv { net: self.clone(), id: sid }
+    }
+
     pub fn conn(&self) -> SimConn {
         SimConn { net: self.clone() }
     }
@@ -437,11 +445,15 @@ impl quic::RecvStream for SimRecv {
     type Buf = Bytes;
 
     fn poll_data(&mut self, cx: &mut Context<'_>) -> Poll<Result<Option<Bytes>, StreamErrorIncoming>> {
+        // Order as in quinn::RecvStream::poll_read_generic: once the end (FIN or the reset error) has been
+        // reported every later read is Ok(None); a reset discards unread data; buffered data and FIN are
+        // still readable after the connection was closed; only a read that would block reports the close.
         let mut n = self.net.lock();
-        if let Some(e) = n.conn_err() {
-            return Poll::Ready(Err(StreamErrorIncoming::ConnectionErrorIncoming { connection_error: e }));
-        }
+        let cerr = n.conn_err();
         let s = n.streams.get_mut(&self.id).expect("stream");
+        if s.rx_fin_seen || s.rx_reset_seen {
+            return Poll::Ready(Ok(None));
+        }
         if s.rx_stopped.is_some() {
             return Poll::Ready(Err(StreamErrorIncoming::Unknown(Box::new(ClosedStream))));
         }
@@ -455,6 +467,9 @@ impl quic::RecvStream for SimRecv {
         if s.rx_fin {
             s.rx_fin_seen = true;
             return Poll::Ready(Ok(None));
+        }
+        if let Some(e) = cerr {
+            return Poll::Ready(Err(StreamErrorIncoming::ConnectionErrorIncoming { connection_error: e }));
         }
         reg(&mut s.rx_w, cx);
         Poll::Pending
@@ -751,13 +766,14 @@ impl quic::Connection<Bytes> for SimConn {
     type OpenStreams = SimOpener;
 
     fn poll_accept_recv(&mut self, cx: &mut Context<'_>) -> Poll<Result<SimRecv, ConnectionErrorIncoming>> {
+        // as in quinn: streams already announced are handed out before the close is reported
         let mut n = self.net.lock();
-        if let Some(e) = n.conn_err() {
-            return Poll::Ready(Err(e));
-        }
         match n.in_uni.pop_front() {
             Some(id) => Poll::Ready(Ok(SimRecv { net: self.net.clone(), id })),
             None => {
+                if let Some(e) = n.conn_err() {
+                    return Poll::Ready(Err(e));
+                }
                 reg(&mut n.w_in_uni, cx);
                 Poll::Pending
             }
@@ -766,15 +782,15 @@ impl quic::Connection<Bytes> for SimConn {
 
     fn poll_accept_bidi(&mut self, cx: &mut Context<'_>) -> Poll<Result<SimBidi, ConnectionErrorIncoming>> {
         let mut n = self.net.lock();
-        if let Some(e) = n.conn_err() {
-            return Poll::Ready(Err(e));
-        }
         match n.in_bidi.pop_front() {
             Some(id) => {
                 drop(n);
                 Poll::Ready(Ok(mk_bidi(&self.net, id)))
             }
             None => {
+                if let Some(e) = n.conn_err() {
+                    return Poll::Ready(Err(e));
+                }
                 reg(&mut n.w_in_bidi, cx);
                 Poll::Pending
             }
